@@ -302,3 +302,71 @@ Definition check_pool (c : pool_case) : result :=
    | _ => (1 + bN (q_has_result "shortCircuited" (q_obs c)) 1 + bN (q_has_result "failureCode" (q_obs c)) 2
              + bN (q_has_result "serverError" (q_obs c)) 4)%N
    end, 0%N).
+
+(** *** group "lin" (thorough tier): concurrent callers
+
+    Goroutines call AcquirePermission / RecordResult on one breaker while the virtual clock
+    stands still; every call and return is stamped with one atomic counter.  The history is
+    accepted iff SOME linearization that respects the real-time order (an operation that
+    returned before another was called comes first) replays on the automaton with exactly the
+    observed results and ends in the observed final (state, stateID).  [lin_search] is a plain
+    fuelled DFS; corr runs it on the concrete model, prop on the contract automaton. *)
+Record lop := { l_call : Z; l_ret : Z; l_op : op; l_flag : bool; l_id : Z }.
+Record lin_case := { n_pol : policy; n_t0 : Z; n_ops : list lop; n_final : Z * Z }.
+
+Definition lop_matches (x : lop) (ob : obs) : bool :=
+  let '(b, _, i) := ob in
+  match l_op x with
+  | OAcq _ => Bool.eqb b (l_flag x) && (i =? l_id x)
+  | ORec _ _ _ _ => negb b
+  end.
+
+Fixpoint lin_search {S : Type} (step : op -> S -> obs * S) (fin : S -> bool)
+         (fuel : nat) (s : S) (pending : list lop) : bool :=
+  match fuel with
+  | O => false
+  | Datatypes.S f =>
+      match pending with
+      | [] => fin s
+      | _ =>
+          (fix try (pre post : list lop) : bool :=
+             match post with
+             | [] => false
+             | x :: post' =>
+                 (* explicit [if]s: vm_compute is call-by-value, [&&]/[||] would explore every branch *)
+                 if (if forallb (fun y => l_call x <? l_ret y) pending
+                     then (let '(ob, s') := step (l_op x) s in
+                           if lop_matches x ob then lin_search step fin f s' (rev pre ++ post') else false)
+                     else false)
+                 then true
+                 else try (x :: pre) post'
+             end) [] pending
+      end
+  end.
+
+Definition lin_cb (c : lin_case) : bool :=
+  lin_search (cb_step (n_pol c))
+             (fun s => (st_code (c_state s) =? fst (n_final c)) && (c_id s =? snd (n_final c)))
+             (S (List.length (n_ops c))) (cb_new (n_pol c) (n_t0 c)) (n_ops c).
+
+Definition lin_sp (c : lin_case) : bool :=
+  lin_search (sp_step (n_pol c))
+             (fun s => (st_code (s_state s) =? fst (n_final c)) && (s_id s =? snd (n_final c)))
+             (S (List.length (n_ops c))) (sp_new (n_pol c) (n_t0 c)) (n_ops c).
+
+Definition is_acq_op (o : op) : bool := match o with OAcq _ => true | _ => false end.
+
+Fixpoint has_overlap (l : list lop) : bool :=
+  match l with
+  | [] => false
+  | x :: t => existsb (fun y => (l_call y <? l_ret x) && (l_call x <? l_ret y)) t || has_overlap t
+  end.
+
+Definition check_lin (c : lin_case) : result :=
+  (lin_cb c, lin_sp c,
+   match n_ops c with
+   | [] => 0%N
+   | _ => (1 + bN (has_overlap (n_ops c)) 1 + bN (existsb (fun x => negb (l_flag x) && is_acq_op (l_op x)) (n_ops c)) 2)%N
+   end, 0%N).
+
+Definition explain_lin (c : lin_case) := (lin_cb c, lin_sp c).
